@@ -260,3 +260,7 @@ walk:
 func TestC10(t *testing.T) {
 	stats.Run(t, stats.Prop[Script]{ID: "C10", Rule: ruleC10, Gen: genC10, Check: checkC10})
 }
+
+func FuzzC10(f *testing.F) {
+	stats.Fuzz(f, stats.Prop[Script]{ID: "C10", Rule: ruleC10, Gen: genC10, Check: checkC10})
+}
